@@ -188,6 +188,17 @@ func (c *codecImpl) Exec(line string) string {
 			return "bad-op"
 		}
 		return c.swap(uint32(ch), k, w[3], val)
+	case w[0] == "swaps" && len(w) == 8:
+		// two swaps during ONE Range pass over the chunk: positions k1 < k2
+		ch, e1 := strconv.ParseUint(w[1], 10, 32)
+		k1, e2 := strconv.Atoi(w[2])
+		v1, ok1 := unhex(w[4])
+		k2, e3 := strconv.Atoi(w[5])
+		v2, ok2 := unhex(w[7])
+		if e1 != nil || e2 != nil || e3 != nil || !ok1 || !ok2 || k1 >= k2 {
+			return "bad-op"
+		}
+		return c.swapMany(uint32(ch), []swapReq{{k1, w[3], v1}, {k2, w[6], v2}})
 	case w[0] == "log-new" && len(w) == 1:
 		c.logB = &bytes.Buffer{}
 		c.logW = commit.Open(c.logB)
@@ -264,7 +275,18 @@ func (c *codecImpl) Exec(line string) string {
 		}
 		r := commit.NewReader()
 		r.Seek(b2)
-		return fmt.Sprintf("buf col=%s chunks=%s ops=%s rest=%d", b2.Column, strings.ReplaceAll(chunkList(b2), " ", ","), strings.ReplaceAll(readOps(r), " ", ","), src.Len())
+		// what Range shows per chunk of the buffer read back (every part of a chunk, in order)
+		var ranges []string
+		seen := map[string]bool{}
+		for _, cs := range strings.Fields(chunkList(b2)) {
+			if seen[cs] {
+				continue
+			}
+			seen[cs] = true
+			ch, _ := strconv.ParseUint(cs, 10, 32)
+			ranges = append(ranges, cs+":"+strings.ReplaceAll(rangeOps(b2, commit.Chunk(ch)), " ", ","))
+		}
+		return fmt.Sprintf("buf col=%s chunks=%s ops=%s ranges=%s rest=%d", b2.Column, strings.ReplaceAll(chunkList(b2), " ", ","), strings.ReplaceAll(readOps(r), " ", ","), strings.Join(ranges, ";"), src.Len())
 	case w[0] == "commit-writeto" && len(w) == 3:
 		ch, e1 := strconv.ParseUint(w[1], 10, 32)
 		id, e2 := strconv.ParseUint(w[2], 10, 64)
@@ -308,92 +330,117 @@ func (c *codecImpl) Exec(line string) string {
 }
 
 // swap positions a reader on the k-th op of the chunk and calls the Swap* method of the op's width
+type swapReq struct {
+	k    int
+	kind string
+	val  []byte
+}
+
 func (c *codecImpl) swap(ch uint32, k int, kind string, val []byte) string {
-	// which op is it? (the reader does not expose whether the current op is a string)
-	pos := -1
-	n := 0
-	for i, ok := range c.kinds {
-		if ok.chunk == ch {
-			if n == k {
-				pos = i
-				break
-			}
-			n++
-		}
-	}
-	if pos < 0 {
-		return "no-op"
-	}
-	cur := c.kinds[pos]
+	return c.swapMany(ch, []swapReq{{k, kind, val}})
+}
+
+// swapMany performs the requested swaps (ascending positions among the chunk's ops) during one Range pass
+func (c *codecImpl) swapMany(ch uint32, reqs []swapReq) string {
 	fixed := func(x string) bool { return x == "f2" || x == "f4" || x == "f8" }
-	switch {
-	case fixed(kind) && cur.kind == kind:
-	case kind == "s" && cur.kind == "s":
-	default:
-		return "no-op"
+	poss := make([]int, len(reqs))
+	for qi, q := range reqs {
+		// which op is it? (the reader does not expose whether the current op is a string)
+		pos := -1
+		n := 0
+		for i, ok := range c.kinds {
+			if ok.chunk == ch {
+				if n == q.k {
+					pos = i
+					break
+				}
+				n++
+			}
+		}
+		if pos < 0 {
+			return "no-op"
+		}
+		cur := c.kinds[pos]
+		switch {
+		case fixed(q.kind) && cur.kind == q.kind:
+		case q.kind == "s" && cur.kind == "s":
+		default:
+			return "no-op"
+		}
+		poss[qi] = pos
 	}
 	c.n++
 	v := c.n
 	r := commit.NewReader()
 	seen := 0
-	done := false
+	done := make([]bool, len(reqs))
 	r.Range(c.buf, commit.Chunk(ch), func(r *commit.Reader) {
 		for r.Next() {
-			if seen == k && !done {
-				done = true
-				switch kind {
-				case "f2":
-					x := binary.BigEndian.Uint16(val)
-					if v%2 == 0 {
-						r.SwapUint16(x)
-					} else {
-						r.SwapInt16(int16(x))
-					}
-				case "f4":
-					x := binary.BigEndian.Uint32(val)
-					switch v % 3 {
-					case 0:
-						r.SwapUint32(x)
-					case 1:
-						r.SwapInt32(int32(x))
-					default:
-						r.SwapFloat32(math.Float32frombits(x))
-					}
-				case "f8":
-					x := binary.BigEndian.Uint64(val)
-					switch v % 5 {
-					case 0:
-						r.SwapUint64(x)
-					case 1:
-						r.SwapInt64(int64(x))
-					case 2:
-						r.SwapFloat64(math.Float64frombits(x))
-					case 3:
-						r.SwapInt(int(x))
-					default:
-						r.SwapUint(uint(x))
-					}
-				case "s":
-					if v%2 == 0 {
-						r.SwapBytes(val)
-					} else {
-						r.SwapString(string(val))
-					}
+			for qi, q := range reqs {
+				if seen == q.k && !done[qi] {
+					done[qi] = true
+					doSwap(r, q.kind, q.val, v+qi)
 				}
 			}
 			seen++
 		}
 	})
-	if !done {
-		return "no-op"
+	for _, d := range done {
+		if !d {
+			return "no-op"
+		}
 	}
-	if kind == "s" && cur.size != len(val) {
-		// Skip + appended Put at the end of the buffer
-		c.kinds = append(c.kinds, opKind{ch, "s", len(val)})
-	} else {
-		c.kinds[pos].size = len(val)
+	for qi, q := range reqs {
+		if q.kind == "s" && c.kinds[poss[qi]].size != len(q.val) {
+			// Skip + appended Put at the end of the buffer
+			c.kinds = append(c.kinds, opKind{ch, "s", len(q.val)})
+		} else {
+			c.kinds[poss[qi]].size = len(q.val)
+		}
 	}
 	return "ok"
+}
+
+func doSwap(r *commit.Reader, kind string, val []byte, v int) {
+	switch kind {
+	case "f2":
+		x := binary.BigEndian.Uint16(val)
+		if v%2 == 0 {
+			r.SwapUint16(x)
+		} else {
+			r.SwapInt16(int16(x))
+		}
+	case "f4":
+		x := binary.BigEndian.Uint32(val)
+		switch v % 3 {
+		case 0:
+			r.SwapUint32(x)
+		case 1:
+			r.SwapInt32(int32(x))
+		default:
+			r.SwapFloat32(math.Float32frombits(x))
+		}
+	case "f8":
+		x := binary.BigEndian.Uint64(val)
+		switch v % 5 {
+		case 0:
+			r.SwapUint64(x)
+		case 1:
+			r.SwapInt64(int64(x))
+		case 2:
+			r.SwapFloat64(math.Float64frombits(x))
+		case 3:
+			r.SwapInt(int(x))
+		default:
+			r.SwapUint(uint(x))
+		}
+	case "s":
+		if v%2 == 0 {
+			r.SwapBytes(val)
+		} else {
+			r.SwapString(string(val))
+		}
+	}
 }
 
 // ---------------------------------------------------------------------------------------------
@@ -542,6 +589,18 @@ func codecCase(name string, puts []putSpec, r *rand.Rand) Case {
 			val := randVal(r, kind, false)
 			lines = append(lines, fmt.Sprintf("swap %d %d %s %s", ch, k%(len(puts)), kind, hexOf(val)), fmt.Sprintf("range %d", ch))
 			feats["swap"] = true
+			if r.Intn(2) == 0 {
+				// two swaps in one pass: a (possibly resizing) string swap early, a same-shape swap later
+				k1, k2 := r.Intn(len(puts)), r.Intn(len(puts))
+				if k1 > k2 {
+					k1, k2 = k2, k1
+				}
+				if k1 < k2 {
+					kd1, kd2 := []string{"s", "s", "f4", "f8", "f2"}[r.Intn(5)], []string{"s", "f2", "f4", "f8"}[r.Intn(4)]
+					lines = append(lines, fmt.Sprintf("swaps %d %d %s %s %d %s %s", ch, k1, kd1, hexOf(randVal(r, kd1, false)), k2, kd2, hexOf(randVal(r, kd2, false))), fmt.Sprintf("range %d", ch), "seek")
+					feats["swaps-one-pass"] = true
+				}
+			}
 		}
 		lines = append(lines, "seek", "writeto")
 	}
@@ -699,37 +758,44 @@ func codecOracle(c Case, out []string) string {
 		switch w[0] {
 		case "new", "reset":
 			puts = nil
-		case "swap":
+		case "swap", "swaps":
 			if out[i] != "ok" {
 				break
 			}
 			// the op the reader was positioned on becomes a put of the new value (in place), or is
-			// marked Skip with the put appended at the end (byte strings of another length)
-			n := 0
-			for j, p := range puts {
-				f := strings.Split(p, ":")
-				idx, _ := strconv.ParseUint(f[1], 10, 32)
-				if strconv.FormatUint(idx>>14, 10) != w[1] {
-					continue
+			// marked Skip with the put appended at the end (byte strings of another length);
+			// `swaps` = two of them during one pass (positions do not move)
+			reqs := [][3]string{{w[2], w[3], w[4]}}
+			if w[0] == "swaps" {
+				reqs = append(reqs, [3]string{w[5], w[6], w[7]})
+			}
+			for _, q := range reqs {
+				n := 0
+				for j, p := range puts {
+					f := strings.Split(p, ":")
+					idx, _ := strconv.ParseUint(f[1], 10, 32)
+					if strconv.FormatUint(idx>>14, 10) != w[1] {
+						continue
+					}
+					if strconv.Itoa(n) == q[0] {
+						oldLen := len(f[2]) / 2
+						if f[2] == "-" {
+							oldLen = 0
+						}
+						newLen := len(q[2]) / 2
+						if q[2] == "-" {
+							newLen = 0
+						}
+						if q[1] == "s" && oldLen != newLen {
+							puts[j] = fmt.Sprintf("4:%s:%s", f[1], f[2])
+							puts = append(puts, fmt.Sprintf("2:%s:%s", f[1], q[2]))
+						} else {
+							puts[j] = fmt.Sprintf("2:%s:%s", f[1], q[2])
+						}
+						break
+					}
+					n++
 				}
-				if strconv.Itoa(n) == w[2] {
-					oldLen := len(f[2]) / 2
-					if f[2] == "-" {
-						oldLen = 0
-					}
-					newLen := len(w[4]) / 2
-					if w[4] == "-" {
-						newLen = 0
-					}
-					if w[3] == "s" && oldLen != newLen {
-						puts[j] = fmt.Sprintf("4:%s:%s", f[1], f[2])
-						puts = append(puts, fmt.Sprintf("2:%s:%s", f[1], w[4]))
-					} else {
-						puts[j] = fmt.Sprintf("2:%s:%s", f[1], w[4])
-					}
-					break
-				}
-				n++
 			}
 		case "put":
 			if out[i] == "ok" {
